@@ -27,6 +27,9 @@ pub struct CaseResult {
     pub obs: BTreeMap<String, u64>,
     /// Optional written-out form of the case for the evidence samples.
     pub sample: Option<Value>,
+    /// Distinct things the monitors saw in this case (e.g. compositions of I/O-thread
+    /// event batches); the driver reports the size of the union over all cases.
+    pub tags: std::collections::BTreeSet<String>,
 }
 
 impl CaseResult {
@@ -39,6 +42,7 @@ impl CaseResult {
             nontrivial: true,
             obs: BTreeMap::new(),
             sample: None,
+            tags: Default::default(),
         }
     }
     pub fn obs(&mut self, k: &str, v: u64) {
@@ -261,6 +265,7 @@ impl RunCtx {
             "ms": self.case_started.elapsed().as_millis() as u64,
             "obs": res.obs,
             "sample": res.sample,
+            "tags": res.tags,
         });
         let mut f = self.out.lock().unwrap();
         let _ = writeln!(f, "{}", rec);
